@@ -227,7 +227,7 @@ def mix_families(rnd, spec):
         rules.append(dict(text=f"if {iv['name']} is {a} then {out['name']} is {c}", tree=tree, concl=concl, weight=1.0, enabled=True))
     # the other rules must not conclude on (or read) the rebuilt variable
     for rb in spec["blocks"]:
-        rb["rules"] = [r for r in rb["rules"] if all(c["var"] != out["name"] for c in r["concl"]) and out["name"] not in r["text"].split()]
+        rb["rules"] = [r for r in rb["rules"] if all(c["var"] != out["name"] for c in r["concl"]) and out["name"] not in r["text"].replace("(", " ").replace(")", " ").split()]
     spec["blocks"][0]["rules"] += rules
     spec["blocks"][0]["activation"] = dict(cls="General", args=[])
 
